@@ -1571,6 +1571,56 @@ def _closure_env_facts(u, fn, cxs):
     return out
 
 
+ITEM_CONSUMERS = {"any", "all", "map", "for_each", "find", "position", "filter_map", "find_map", "take_while", "skip_while", "inspect", "flat_map", "filter"}
+
+
+def _adaptor_item_facts(u, fn):
+    """a closure handed to an iterator method whose receiver is `it.filter(|x| !x.is_empty())` only ever sees non-empty items
+    (std: Filter yields exactly the items for which the predicate returned true): [('len_ge1', 2, 'arg2')]"""
+    b = u.bodies[fn]
+    if b["argc"] != 2:
+        return []
+    parent = b.get("parent")
+    pb = u.bodies.get(parent)
+    if pb is None:
+        for k2, v2 in u.bodies.items():
+            if mir.norm(k2) == mir.norm(parent or ""):
+                parent, pb = k2, v2
+    if pb is None:
+        return []
+    me = "closure " + fn
+    uses = []
+    for bb, t, name, info in mir.calls(pb):
+        if not name:
+            continue
+        args = [sym.expr(pb, a) for a in t["args"]]
+        if any(a[0] == "agg" and mir.norm(str(a[1])) == mir.norm(me) for a in args):
+            uses.append((name, args))
+    if len(uses) != 1:
+        return []
+    name, args = uses[0]
+    if not (mir.norm(name).startswith("std::iter::Iterator::") and mir.norm(name).split("::")[-1] in ITEM_CONSUMERS and len(args) == 2):
+        return []
+    recv = args[0]
+    while recv[0] == "ref" or (recv[0] == "call" and recv[1].split("::")[-1] in ("into_iter", "by_ref") and recv[2]):
+        recv = recv[1] if recv[0] == "ref" else recv[2][0]
+    if not (recv[0] == "call" and recv[1] == "std::iter::Iterator::filter" and len(recv[2]) == 2 and recv[2][1][0] == "agg" and str(recv[2][1][1]).startswith("closure ")):
+        return []
+    pn = str(recv[2][1][1])[len("closure "):]
+    cands = [k for k in u.bodies if mir.norm(k) == mir.norm(pn)]
+    if len(cands) != 1:
+        return []
+    r = sym.expr_local(u.bodies[cands[0]], 0)
+    if r[0] == "un" and r[1] == "Not" and r[2][0] == "call" and r[2][1] in ("core::slice::is_empty", "std::vec::Vec::is_empty") and len(r[2][2]) == 1:
+        a = r[2][2][0]
+        while a[0] in ("ref",):
+            a = a[1]
+        if a[0] in ("load", "arg", "refplace") and str(a[1] if a[0] != "arg" else "arg%d" % a[1]).startswith("arg2"):
+            # the consumer's closure receives the item itself (`any`, `map`, ..) or a reference to it (`filter`, `inspect`, ..): same length
+            return [("len_ge1", 2, "arg2")]
+    return []
+
+
 def param_facts(u, fn):
     """facts about the parameters of a non-public function or closure that hold at every direct call site (L-PRE): list of
     ('hi'|'lo', local, bound) | ('len_ge1', local, callee-side length key) | ('le_len', local, callee-side length key)"""
@@ -1583,7 +1633,7 @@ def param_facts(u, fn):
     isclo = b.get("kind") == "Closure"
     sites = _call_sites(u, fn)
     if sites is None and isclo:
-        _PF[fn] = _closure_env_facts(u, fn, {})
+        _PF[fn] = _closure_env_facts(u, fn, {}) + _adaptor_item_facts(u, fn)
         return _PF[fn]
     if sites is None or (not sites and not isclo):
         return []
